@@ -59,6 +59,7 @@ def plan(tier, seed):
     try:
         from . import c09_pipeline
         descs += c09_pipeline.plan(tier, eff_seed(seed))
+        descs += c09_pipeline.plan_mig(tier, eff_seed(seed))
     except ImportError:
         pass
     return descs
@@ -157,6 +158,8 @@ def check_graph(n, mask, loops, items, stats, order=None):
 def run_case(desc):
     if desc['mode'] != 'core':
         from . import c09_pipeline
+        if desc['mode'] == 'pipeline_mig':
+            return c09_pipeline.run_mig_case(desc)
         return c09_pipeline.run_case(desc)
     import random
     n, loops = desc['n'], desc['loops']
